@@ -362,7 +362,7 @@ MALFORMED = [
 def gen(ctx):
     rng = ctx.rng('gen')
     quick = ctx.tier == 'quick'
-    n = 2500 if quick else 300000
+    n = 6000 if quick else 300000
     for i, (typ, spec) in enumerate(MALFORMED):
         if i % ctx.nshards == ctx.shard:
             yield {'type': 'malformed', 'of': typ, 'spec': spec}
